@@ -768,6 +768,8 @@ def _judge_weights(case, data, box, spec, xc, yc, outer, inner, method, s, mech,
         return False
     fam = spec['fam']
     fkey = fam + ('_annulus' if inner is not None else '')
+    if spec.get('_mech_extra'):
+        fkey += '@inplace_history'      # keeps stale-cache findings out of the audit of the plain tolerances
     area = _ref_area(outer, inner)
     nontriv = False
     if method == 'exact' and fam in ('circle', 'ellipse'):
